@@ -752,6 +752,50 @@ pub fn oracle_guards(rng: &mut Rng, n: usize, _tier: &str) -> OracleReport {
             }
         }
     }
+    // guards nested in a guard are isolated *when they exit*, not only when the outermost one does: the
+    // smallest heap limit under which two inner guards (each allocating ~1000 bytes) run inside an outer
+    // guard is about the one needed when the same two guards run in sequence at top level
+    for i in 0..n.min(12) {
+        let flags = if i % 2 == 0 { 0 } else { ENABLE_GC };
+        let len = 400 + 100 * (i % 4);
+        let env = T::Atom(rng.bytes(len));
+        let inner_body = call(14, vec![int(1), int(1)]);
+        // the guarded program is run with the guard's own environment operand: pass the outer environment
+        let mk = |cost: u64, body: &T| call(36, vec![quote(int(cost as i128)), quote(int(0)), quote(body.clone()), int(1)]);
+        let find = |body: &T| -> Option<(T, u64)> {
+            let base = run_full("chia", flags, 0, body, &env, "");
+            let Ok((c, _)) = base.res else { return None };
+            for delta in 0..80u64 {
+                let g = mk(c + 140 + delta, body);
+                if run_full("chia", flags, 0, &g, &env, "").res.is_ok() {
+                    return Some((g, c + 140 + delta));
+                }
+            }
+            None
+        };
+        let Some((inner, _)) = find(&inner_body) else { continue };
+        let seq = call(4, vec![inner.clone(), inner.clone()]);
+        let Some((nested, _)) = find(&seq) else { continue };
+        let min_heap = |p: &T| -> Option<usize> {
+            let mut lo = 0usize;
+            let mut hi = 16 * len + 4096;
+            if !crate::run::run_with("chia", flags, 0, Some(hi), p, &env, "").0.starts_with("ok") {
+                return None;
+            }
+            while lo < hi {
+                let mid = (lo + hi) / 2;
+                if crate::run::run_with("chia", flags, 0, Some(mid), p, &env, "").0.starts_with("ok") { hi = mid } else { lo = mid + 1 }
+            }
+            Some(lo)
+        };
+        rep.evaluations += 1;
+        if let (Some(h_seq), Some(h_nested)) = (min_heap(&seq), min_heap(&nested)) {
+            rep.nontrivial += 1;
+            if h_nested > h_seq + 64 {
+                rep.fail("guard_isolated_nested", format!("{} needs a heap headroom of {} bytes, the same two guards in sequence need {}", desc(&nested, &env, flags), h_nested, h_seq));
+            }
+        }
+    }
     for i in 0..n {
         let flags = random_flags(rng) & !NO_UNKNOWN_OPS;
         let (body, _) = random_program(rng, 15, false);
